@@ -1,57 +1,52 @@
 (* Props/C16.v -- property C16 (partial): any binary input ends in success or a diagnostic, never a crash.
    Statements over the executable models of the script reader, the label pass and image extraction,
    instantiated with the tables that gen/instrfmt.py and gen/texfmt.py read out of the current source.
-   The theorems are stated so that they hold for whatever the tables say: which rows satisfy the
-   guards ([size_safe], [dl_safe], [gen_extract_guard]) is computed by the check on every run, and every
-   row that does not is reported with a concrete crashing file.  Every proof is [exact lemma]. *)
+   The side conditions on the tables (every format has checked size arithmetic on an unsigned field, every
+   decode_label is total, the extraction size guard is present) are discharged by vm_compute on the tables
+   of the current source: an edit that reintroduces unchecked arithmetic breaks C16_tables_wf, and the check
+   then reports the crashing file found by the harness.  (The panicking shapes that were present before the
+   fix: commits 0453984 60f96af 2cd8af3 44d6844 0124ab9 ecc4bbd are kept as lemmas *_refuted in Proofs/.)
+   Every proof is [exact lemma] or a three-line instantiation. *)
 From TV Require Import Base.I32 Model.BinScript Model.Labels Model.Texture Model.DecodeArgs Gen.InstrFmt Gen.TexFmt Gen.AbiLetters
   Proofs.ReadTotal Proofs.LabelsDefined Proofs.ExtractTotal Proofs.DecodeTotal.
 Open Scope Z_scope.
 
-(* (0) the generated tables are well formed: every format reads at least one header field *)
+(* (0) the generated tables: every format reads at least one header field and computes the argument size
+       with a checked subtraction / equality on an unsigned field; every decode_label is total; the colour
+       table is well formed and image extraction checks the data size *)
 Theorem C16_tables_wf :
-  forallb (fun p => fmt_wf (snd p) && (0 <=? f_hdr (snd p))) gen_formats = true /\ tbl_wf gen_color_formats = true.
-Proof. split; vm_compute; reflexivity. Qed.
+  forallb (fun p => fmt_wf (snd p) && (0 <=? f_hdr (snd p)) && size_safe (snd p)) gen_formats = true /\
+  forallb dl_safe gen_decoders = true /\
+  tbl_wf gen_color_formats = true /\ gen_extract_guard = true.
+Proof. repeat split; vm_compute; reflexivity. Qed.
+
+Lemma gen_format_facts n F : In (n, F) gen_formats -> fmt_wf F = true /\ 0 <= f_hdr F /\ size_safe F = true.
+Proof.
+  intros H. destruct C16_tables_wf as [W _]. rewrite forallb_forall in W. specialize (W _ H). cbn [snd] in W.
+  apply andb_true_iff in W. destruct W as [W W3]. apply andb_true_iff in W. destruct W as [W1 W2].
+  repeat split; auto. now apply Z.leb_le.
+Qed.
 
 (* (1) the script reader terminates on every byte string, for every format, with or without an end
        offset: the fuel [length bs + 1] of [read_script] is never exhausted (each instruction consumes
        at least one byte: the termination argument is proved, not assumed) *)
 Theorem C16_read_terminates : forall n F bs endo,
   In (n, F) gen_formats -> read_script F bs endo <> OutOfFuel.
-Proof.
-  intros n F bs endo H. apply read_script_terminates.
-  destruct C16_tables_wf as [W _]. rewrite forallb_forall in W. specialize (W _ H). cbn in W.
-  now apply andb_true_iff in W.
-Qed.
+Proof. intros n F bs endo H. apply read_script_terminates. apply (gen_format_facts n F H). Qed.
 
-(* (2) read_total: Ok or Err, never Panic, for every format whose size arithmetic is checked on an
-       unsigned size field *)
+(* (2) read_total: for every instruction format of the source and every byte string the script reader
+       returns Ok or Err: never Panic, never OutOfFuel *)
 Theorem C16_read_total : forall n F bs endo,
-  In (n, F) gen_formats -> size_safe F = true -> ok_or_err (read_script F bs endo).
-Proof.
-  intros n F bs endo H S. destruct C16_tables_wf as [W _]. rewrite forallb_forall in W. specialize (W _ H). cbn in W.
-  apply andb_true_iff in W. destruct W as [W1 W2]. apply read_total; auto. now apply Z.leb_le.
-Qed.
+  In (n, F) gen_formats -> ok_or_err (read_script F bs endo).
+Proof. intros n F bs endo H. destruct (gen_format_facts n F H) as (W & Hh & SS). now apply read_total. Qed.
 
-(* (2') the other shapes of size arithmetic panic: unchecked subtraction (StdHooks10, OldeEclHooks), a
-        signed size field cast to usize (OldeEclHooks, TimelineFormat06), assert_eq!(argsize, 12) (StdHooks06) *)
-Theorem C16_read_total_refuted :
-  read_script row_unchecked_u16 [0;0;0;0; 5;0; 7;0] None = Panic P_OVERFLOW /\
-  (read_script row_unchecked_i16 [0;0;0;0; 5;0; 11;0; 0;255;255;0] None = Panic P_OVERFLOW /\
-   read_script row_unchecked_i16 [0;0;0;0; 5;0; 0;128; 0;255;255;0] None = Panic P_CAPACITY) /\
-  read_script row_checked_i16 [0;0; 0;0; 5;0; 255;255] None = Panic P_CAPACITY /\
-  read_script row_assert12 [0;0;0;0; 5;0; 8;0] None = Panic P_ASSERT.
-Proof.
-  exact (conj unchecked_sub_refuted (conj unchecked_sub_signed_refuted (conj checked_sub_signed_refuted assert12_refuted))).
-Qed.
-
-(* (3) decode_label is total for the wide / relative / absolute forms; the u32 product overflows *)
+(* (3) decode_label of every language hook is total *)
 Theorem C16_decode_label_total : forall k cur bits,
-  In k gen_decoders -> dl_safe k = true -> exists o, decode_label k cur bits = Ok o.
-Proof. intros k cur bits _. apply decode_label_total. Qed.
-
-Theorem C16_decode_label_refuted : decode_label DL_mul20_u32 0 268435456 = Panic P_OVERFLOW.
-Proof. exact decode_label_mul20_refuted. Qed.
+  In k gen_decoders -> exists o, decode_label k cur bits = Ok o.
+Proof.
+  intros k cur bits H. apply decode_label_total.
+  destruct C16_tables_wf as (_ & D & _). rewrite forallb_forall in D. now apply D.
+Qed.
 
 (* (4) labels_defined: when the label pass of a script succeeded, the lookup performed for the jump of
        every instruction (raise_intrinsic_parts: `offset_labels[&x]`) finds a label; the pass itself and
@@ -64,34 +59,39 @@ Theorem C16_labels_defined : forall k script sizes ls,
 Proof. exact labels_defined. Qed.
 
 Theorem C16_label_pass_total : forall k script sizes,
-  dl_safe k = true -> length sizes = length script ->
+  In k gen_decoders -> length sizes = length script ->
   (forall i, In i script -> abi_valid (ei_encs i) = true) ->
   ok_or_err (label_pass_and_lookups k script sizes).
-Proof. exact lookups_total. Qed.
+Proof.
+  intros k script sizes H. apply lookups_total.
+  destruct C16_tables_wf as (_ & D & _). rewrite forallb_forall in D. now apply D.
+Qed.
 
 Theorem C16_labels_need_validation :
   let i := mkEI 0 0 [JOffset; JOffset] [8; 0] in
   abi_valid (ei_encs i) = false /\ label_pass_and_lookups DL_abs [i] [8] = Panic P_INDEX.
 Proof. exact labels_undefined_without_validation. Qed.
 
-(* (5) extract_total: a texture whose data length is bytes-per-pixel x width x height is extracted (with
-       or without the size guard); with the guard every other texture is an error diagnostic; without it
-       the two reproduced panics *)
+(* (5) extract_total: for every texture header (any format number, width, height, data length) image
+       extraction returns Ok or Err; it is Ok exactly for the consistent ones (data length = bytes per pixel
+       x width x height of a known format), and an inconsistent one is a diagnostic *)
+Theorem C16_extract_total : forall t,
+  tex_in_range t -> ok_or_err (produce_image gen_color_formats gen_extract_guard t).
+Proof.
+  intros t R. destruct C16_tables_wf as (_ & _ & W & G). rewrite G. now apply extract_total_guarded.
+Qed.
+
 Theorem C16_extract_consistent_ok : forall t,
   tex_consistent gen_color_formats t -> tex_in_range t ->
   produce_image gen_color_formats gen_extract_guard t = Ok tt.
 Proof. intros t. apply extract_consistent_ok. Qed.
 
-Theorem C16_extract_total_guarded : forall t,
-  tex_in_range t -> ok_or_err (produce_image gen_color_formats true t).
-Proof. intros t. apply extract_total_guarded. exact (proj2 C16_tables_wf). Qed.
-
-Theorem C16_extract_total_refuted :
-  (produce_image tbl0 false (mkTex 1 4 2 16 0 0) = Panic P_EXPECT) /\
-  (produce_image tbl0 false (mkTex 3 2 2 7 0 0) = Panic P_ASSERT) /\
-  (produce_image tbl0 true (mkTex 1 4 2 16 0 0) = Err E_TEXSIZE) /\
-  (produce_image tbl0 true (mkTex 3 2 2 7 0 0) = Err E_TEXSIZE).
-Proof. exact extract_total_refuted. Qed.
+Theorem C16_extract_inconsistent_err : forall t c,
+  find_fmt gen_color_formats (t_fmt t) = Some c -> t_len t <> cf_bpp c * t_w t * t_h t ->
+  produce_image gen_color_formats gen_extract_guard t = Err E_TEXSIZE.
+Proof.
+  intros t c F N. destruct C16_tables_wf as (_ & _ & _ & G). rewrite G. exact (extract_inconsistent_err gen_color_formats t c F N).
+Qed.
 
 (* (6) decode_total: the blob decoder (decode_args_with_abi) is Ok or Err for every blob and every signature
        whose integer/padding sizes have a decoder arm and whose arg0 argument (if any) comes first and has
@@ -105,7 +105,7 @@ Theorem C16_decode_total : forall str_ok blob es has_extra,
   ok_or_err (decode_args str_ok gen_decode_int_sizes gen_decode_pad_sizes blob es has_extra).
 Proof. intros. now apply decode_total. Qed.
 
-Theorem C16_decode_unvalidated_refuted :
+Theorem C16_decode_needs_validation :
   decode_args (fun _ => true) [1; 2; 4] [1; 4] [0; 0; 0] [EncInt 3 false] false = Panic P_UNREACH /\
   decode_args (fun _ => true) [1; 2; 4] [1; 4] [0; 0] [EncInt 2 true] false = Panic P_EXPECT /\
   decode_args (fun _ => true) [1; 2; 4] [1; 4] [0; 0] [EncInt 2 true; EncInt 2 true] true = Panic P_EXPECT.
